@@ -189,6 +189,11 @@ def step(ins, regs):
         b = regs[ins[3]] if ins[4] == 'reg' else ins[3]
         t = {'add': operator.iadd, 'sub': operator.isub, 'mul': operator.imul, 'div': operator.itruediv}[ins[1]](t, b)
         return t
+    if op == 'shift':          # t^s x(t) mod t^D (s >= 0); a plain value is the polynomial of degree 0
+        a, sh = regs[ins[1]], ins[2]
+        if isinstance(a, np.ndarray) or np.isscalar(a):
+            return np.array(a, copy=True) if sh == 0 else np.zeros_like(a)
+        return a.shift(sh)
     if op == 'solvec':         # solve with a constant (plain ndarray) operand on either side
         a, c, side = regs[ins[1]], ins[2], ins[3]
         return algopy.solve(a, c) if side == 'r' else algopy.solve(c, a)
@@ -391,7 +396,7 @@ def _magnitude_ok(v):
 FAMILIES_ALL = ['un', 'un', 'kink', 'special', 'unp', 'bin', 'bin', 'bcast', 'binc', 'binc', 'pow', 'neg', 'get', 'get', 'T', 'reshape',
                 'buf', 'set', 'set', 'rmw', 'rmw', 'sum', 'prod', 'trace', 'dot', 'dot', 'dotc', 'outer', 'inv', 'solve', 'det',
                 'logdet', 'qr', 'chol', 'eigh', 'svd', 'lu', 'fft', 'tile', 'diag', 'symvec']
-FAMILIES_FWD_ONLY = ['unfwd', 'minmax', 'tri', 'abs', 'expm', 'svdfull', 'umax', 'powreg', 'iop', 'solvec']
+FAMILIES_FWD_ONLY = ['unfwd', 'minmax', 'tri', 'abs', 'expm', 'svdfull', 'umax', 'powreg', 'iop', 'solvec', 'shift']
 FAMILIES_POLY = ['un', 'bin', 'bin', 'bcast', 'binc', 'binc', 'pow', 'neg', 'get', 'get', 'T', 'reshape', 'buf', 'set', 'rmw', 'sum', 'prod',
                  'trace', 'dot', 'dot', 'dotc', 'outer', 'tile', 'diag']
 
@@ -1102,6 +1107,11 @@ def _emit_family_impl(draw, S, fam, allow_set_broadcast=True, allow_ndim_dot=Fal
         if b is None:
             return False
         return S.try_emit(['iop', opn, a, b, 'reg'])
+    if fam == 'shift':
+        a = _pick(draw, S, lambda r: real(r))
+        if a is None:
+            return False
+        return S.try_emit(['shift', a, draw(st.sampled_from([1, 2, 0, 3, 1]))])
     if fam == 'solvec':
         side = draw(st.sampled_from(['r', 'l']))
         if side == 'r':
